@@ -28,7 +28,7 @@ class Zoo:
         self.k += 1
         return str(self.tag * 100 + self.k)
 
-    NESTABLE = ["binop", "if", "apply", "let", "with", "assert", "lambda", "has_attr", "select", "list", "set"]
+    NESTABLE = ["binop", "if", "apply", "let", "with", "assert", "lambda", "has_attr", "select", "list", "set", "formals"]
 
     def atom(self) -> str:
         if self.depth == 0 and self.rng.random() < self.nest_p:
@@ -125,6 +125,17 @@ class Zoo:
         if kind == "lambda":
             head = self.rng.choice(["x:", "{ a, b }:", "{ a ? 1, ... }:", "args@{ a, ... }:"])
             return head + g() + a()
+        if kind == "formals":
+            # an argument set with arbitrary gaps between its tokens (the grammar has no trailing comma: the last
+            # formal is followed by the gap and the closing brace)
+            names = self.rng.sample(["a", "b", "c", "d"], self.rng.randint(1, 3))
+            items = [n if self.rng.random() < 0.7 else "%s ? %s" % (n, self.lit()) for n in names]
+            if self.rng.random() < 0.5:
+                items.append("...")
+            out = self.rng.choice(["", "", "args@"]) + "{"
+            for i, it in enumerate(items):
+                out += g() + it + ("," if i < len(items) - 1 else "")
+            return out + g() + "}:" + g() + a()
         if kind == "select":
             return self.rng.choice(["a.b.c", "a.b or" + g() + a(), "(f x).y", "a.b" + g() + "or" + g() + a()])
         if kind == "has_attr":
@@ -151,7 +162,7 @@ class Zoo:
             return out
         raise ValueError(kind)
 
-    KINDS = ["binop", "if", "apply", "list", "set", "let", "with", "assert", "lambda", "select", "has_attr", "unary", "paren", "string", "merge", "inherit"]
+    KINDS = ["binop", "if", "apply", "list", "set", "let", "with", "assert", "lambda", "select", "has_attr", "unary", "paren", "string", "merge", "inherit", "formals"]
 
     MERGE_NAMES = ["enable", "port", "host", "workers", "user", "group", "extraArgs", "package", "q", "zz"]
 
@@ -235,7 +246,7 @@ class Zoo:
             text = "let\n  k = " + val + ";\nin\n{\n  x = k;\n}\n"
         else:
             val = self.construct(kind, "    ")
-            if kind in ("binop", "if", "apply", "let", "with", "assert", "lambda", "has_attr", "unary", "select"):
+            if kind in ("binop", "if", "apply", "let", "with", "assert", "lambda", "has_attr", "unary", "select", "formals"):
                 val = "(" + val + ")"
             text = "{\n  l = [\n    1\n    " + val + "\n    3\n  ];\n}\n"
         facts = {"construct": kind, "place": place, "gaps": sorted(set(self.slots)), "gap_seq": list(self.slots), "nested": self.extra_nested}
